@@ -507,9 +507,54 @@ func (w *worker) run(hist []int, op int) result {
 }
 
 type kase struct {
-	Kind    string   `json:"kind"` // "history" | "entry"
+	Kind    string   `json:"kind"` // "history" | "entry" | "odd"
 	History []string `json:"history,omitempty"`
 	Entry   []byte   `json:"entry,omitempty"`
+	Odd     string   `json:"odd,omitempty"`
+	Content int      `json:"content,omitempty"`
+}
+
+var oddKinds = []string{"symlink-to-itself", "dangling-symlink", "directory", "symlink-to-directory", "subdirectory-is-a-file", "unreadable"}
+
+// checkOdd stores content ci for A and replaces its data file (or the file's
+// directory) by a file-system object of another type; the lookups are judged
+// by the usual oracle. (A FIFO is left out: reading it blocks for ever, also
+// on the unchanged tree.)
+func checkOdd(w *worker, kind string, ci int) string {
+	e := w.fresh()
+	c := cache.WithDirVerif(e.c, e.dir)
+	if err := c.PutBytes(ids[0], contents[ci]); err != nil {
+		kit.UnderTestFailed("PutBytes into a fresh cache fails: %v", err)
+	}
+	e.m.Content[0], e.m.IdxOK[0], e.m.DataOK[ci] = ci, true, false
+	path := fileOf(e.dir, outIDs[ci], "d")
+	sub := filepath.Dir(path)
+	os.Remove(path)
+	switch kind {
+	case "symlink-to-itself":
+		os.Symlink(filepath.Base(path), path)
+	case "dangling-symlink":
+		os.Symlink("nothing-here", path)
+	case "directory":
+		os.Mkdir(path, 0o777)
+	case "symlink-to-directory":
+		os.Symlink(".", path)
+	case "subdirectory-is-a-file":
+		if sub == filepath.Dir(fileOf(e.dir, ids[0], "a")) {
+			return "" // the index entry lives there too
+		}
+		os.RemoveAll(sub)
+		os.WriteFile(sub, []byte("not a directory\n"), 0o666)
+	case "unreadable":
+		os.WriteFile(path, contents[ci], 0)
+	}
+	v := oracle(e)
+	if kind == "subdirectory-is-a-file" {
+		os.Remove(sub)
+		os.Mkdir(sub, 0o777)
+	}
+	os.RemoveAll(path)
+	return v
 }
 
 func histNames(ops []opDef, hist []int, op int) []string {
@@ -561,6 +606,12 @@ func main() {
 		if c.Kind == "entry" {
 			return checkEntry(w, c.Entry)
 		}
+		if c.Kind == "odd" {
+			if v := checkOdd(w, c.Odd, c.Content); v != "" {
+				return []kit.V{{Key: violClass(v) + " data-file-is=" + c.Odd + " content=" + contentName[c.Content], What: v, Case: c}}
+			}
+			return nil
+		}
 		if c.Kind == "entry-isolated" {
 			vs, _ := isolatedEntries(root, [][]byte{c.Entry})
 			return vs
@@ -601,6 +652,16 @@ func main() {
 	init := workers[0].run(nil, byName["Get(A)"])
 	seen[init.key] = true
 	frontier := []state{{nil}}
+	r.Stuck = func(in []byte) kit.V {
+		if len(in) > 0 && in[0] == 'E' {
+			return kit.V{Key: "no-return index-entry=" + kit.Q(in[1:]), What: fmt.Sprintf("a lookup with the index entry %q on disk does not return", in[1:]), Case: kase{Kind: "entry", Entry: append([]byte(nil), in[1:]...)}}
+		}
+		h := ""
+		if len(in) > 0 {
+			h = string(in[1:])
+		}
+		return kit.V{Key: "no-return history=" + h, What: "an operation of the history " + h + " (or a lookup after it) does not return", Case: kase{Kind: "history", History: strings.Split(h, "; ")}}
+	}
 	var transitions, states int64 = 0, 1
 	completed := 0
 	perLevel := []string{}
@@ -621,9 +682,11 @@ func main() {
 				for {
 					i := int(atomic.AddInt64(&next, 1))
 					if i >= len(frontier) || r.Expired() {
+						r.WatchDone(wi)
 						return
 					}
 					for op := range ops {
+						r.Watch(wi, []byte("H"+strings.Join(histNames(ops, frontier[i].hist, op), "; ")))
 						res := w.run(frontier[i].hist, op)
 						if !res.applicable {
 							continue
@@ -681,6 +744,7 @@ func main() {
 	subs := []byte{' ', '0', '9', 'f', 'g', '-', '+', '\n', 'v', 0, 0xff, '1'}
 	tryEntry := func(b []byte) {
 		entries++
+		r.Watch(0, append([]byte("E"), b...))
 		vs := checkEntry(w0, b)
 		for _, v := range vs {
 			r.Violation(v.Key, v.What, v.Case)
@@ -735,6 +799,20 @@ func main() {
 			}
 		}
 	}
+	// file-system objects of the wrong type where a data file (or its directory)
+	// should be: lookups must still answer not-found or verified bytes, never panic
+	r.WatchDone(0)
+	var odd int64
+	for _, kind := range oddKinds {
+		for ci := 0; ci < 3; ci++ {
+			odd++
+			if v := checkOdd(w0, kind, ci); v != "" {
+				r.Violation(violClass(v)+" data-file-is="+kind+" content="+contentName[ci], fmt.Sprintf("%s stored, then its data file replaced by: %s: %s", contentName[ci], kind, v), kase{Kind: "odd", Odd: kind, Content: ci})
+			}
+		}
+	}
+	r.Set("odd_file_type_states", odd)
+
 	// whole-field values: every boundary a 20-byte decimal field can hold
 	sz := int64(len(contents[0]))
 	fieldVals := []string{}
